@@ -395,6 +395,8 @@ class TokenAwarePolicy(LoadBalancingPolicy):
             else:
                 replicas = self._cluster_metadata.get_replicas(keyspace, routing_key)
                 if self.shuffle_replicas:
+                    # shuffle a copy: get_replicas() hands out the token map's own list
+                    replicas = list(replicas)
                     shuffle(replicas)
                 yielded = []
                 for replica in replicas:
